@@ -31,12 +31,12 @@ def _bins():
     fp = os.path.join(d, f"h_c18fp-{rh}-{hh}")
     ts = os.path.join(d, f"h_c18tsan-{rh}-{hh}")
     fails = vlib.build_cxx([(SRC, fp, FP_FLAGS), (SRC, ts, TS_FLAGS)])
-    # keep the 8 most recently used programs
+    # keep the 16 most recently used programs
     for p in (fp, ts):
         if os.path.exists(p):
             os.utime(p, None)
     old = sorted((os.path.getmtime(os.path.join(d, f)), f) for f in os.listdir(d) if not f.endswith(".tmp"))
-    for _, f in old[:-8]:
+    for _, f in old[:-16]:
         try:
             os.remove(os.path.join(d, f))
         except OSError:
